@@ -531,3 +531,61 @@ Example C10_netcode_example :
   get_errno false (EUnder (EUnder (EWrap (EOp (ESys (EErrno 104)))))) = 104 /\
   get_errno false (EWrap (EUnder (EErrno 104))) = 999.
 Proof. repeat split; reflexivity. Qed.
+
+(* ---------------------------------------------------------------------------------------
+   Round 8.  The http/json (jsonline) file line by line, each line as the MEMBERS written in its
+   JSON object (Model/ShootJsonLine.v): the optional members (tag, headers, body) may be absent,
+   null, repeated, or stand beside members that name nothing.  Scan decodes every line into a
+   fresh entity, so the ammo a line means depends on that line only.
+   --------------------------------------------------------------------------------------- *)
+From PV Require Import Model.ShootJsonLine Proofs.ShootJsonLineProofs.
+
+(* every line list (any members, any order), every url oracle, auto-tag setting and number k of
+   acquisitions: when the provider accepts the lines (entries es) shooting what it delivers yields
+   one sample per line, cyclically, and the tag each sample is chosen from is the tag written on
+   ITS OWN line - the empty one for a line that writes no tag member, whatever the lines before
+   it say; such a sample is tagged by the auto-tag or __EMPTY__ (C10_tag_choice). *)
+Theorem C10_jsonline_tag_of_own_line :
+  forall cfg url_parse (path_of : entry -> bytes) (xof : nat -> entry -> exchange) (k : nat) (ls : list jline) es,
+  read_array url_parse (lines_entities ls) = Some es -> es <> [] ->
+  shoot_deliveries cfg e_tag path_of xof 0 1 (json_stream_decode url_parse cfg0 k (lines_entities ls) JEof) =
+    ammo_spec cfg e_tag path_of xof 0 1 (cycle_take k es es) /\
+  map e_tag es = map line_tag ls /\ length es = length ls /\
+  (forall l, written_tag l = None -> j_tag (line_entity l) = []).
+Proof.
+  intros cfg url_parse path_of xof k ls es H Hne.
+  destruct (json_lines_file_samples cfg url_parse path_of xof ls es k H Hne) as [A [B C]].
+  split; [exact A|]. split; [exact B|]. split; [exact C|]. exact untagged_line_no_tag.
+Qed.
+Print Assumptions C10_jsonline_tag_of_own_line.
+
+(* One decode target for all lines (the allocation-saving variant): it is the same decoder exactly
+   when the target is reset to the zero value before each line; with ANY reset that leaves the tag
+   field alone the tags are the carried ones - a line that writes no tag inherits the tag of the
+   lines before it - which is false of the specification for every non-empty tag t. *)
+Theorem C10_jsonline_reused_target_refuted :
+  (forall clear, (forall e, clear e = fresh_entity) ->
+     forall ls cur, reuse_entities clear cur ls = lines_entities ls) /\
+  (forall clear, (forall e, j_tag (clear e) = j_tag e) ->
+     (forall ls cur, map j_tag (reuse_entities clear cur ls) = carried_tags (j_tag cur) ls) /\
+     (forall t, t <> [] ->
+        map j_tag (reuse_entities clear fresh_entity [[MTag t]; []]) <> map line_tag [[MTag t]; []])).
+Proof.
+  split; [exact reuse_reset_all|]. intros clear Hc.
+  split; [exact (reuse_keeping_tag clear Hc)|]. intros t Ht. exact (reuse_keeping_tag_wrong clear t Hc Ht).
+Qed.
+Print Assumptions C10_jsonline_reused_target_refuted.
+
+(* non-vacuity: three lines - tagged, without a tag member (an ignored "tags" member instead), tag
+   written twice - shot with auto-tag for untagged ammo only *)
+Example C10_jsonline_example :
+  let url (u : bytes) : option (bytes * bytes) := Some (u, []) in
+  let ls := [ [MHost [104]; MMethod [71;69;84]; MUri [47;97;47;98]; MTag [116;49]];
+              [MIgnored [116;97;103;115]; MUri [47;99;47;100]; MMethod [71;69;84]; MHost [104]];
+              [MTag [120]; MHost [104]; MMethod [71;69;84]; MUri [47;101]; MTag [121]] ] in
+  let cfg := Build_autotag_cfg true 1 true in
+  map line_tag ls = [[116;49]; []; [121]] /\
+  map sm_tags (shoot_deliveries cfg e_tag (fun _ => [47;99;47;100]) (fun _ _ => XResp 200 BodyOk) 0 1
+     (json_stream_decode url cfg0 4 (lines_entities ls) JEof)) = [[116;49]; [47;99]; [121]; [116;49]] /\
+  map j_tag (reuse_entities (fun e => e) fresh_entity ls) = [[116;49]; [116;49]; [121]].
+Proof. repeat split; vm_compute; reflexivity. Qed.
